@@ -59,6 +59,28 @@ impl Family for Fam {
             }
             6 => vec![CpcSketch::verif_determine_flavor(a[0] as u8, a[1] as u32) as i128],
             7 => vec![CpcSketch::verif_determine_correct_offset(a[0] as u8, a[1] as u32) as i128],
+            9 => vec![CpcSketch::verif_determine_pseudo_phase(a[0] as u8, a[1] as u32) as i128],
+            30 => {
+                // a fresh sketch with `full` complete columns and `extra` rows of the next one, rows scrambled;
+                // then serialize + deserialize
+                let (lg_k, full, extra) = (a[0] as u8, a[1] as u32, a[2] as u32);
+                let k = 1u32 << lg_k;
+                let mut s = CpcSketch::with_seed(lg_k, self.seed);
+                for col in 0..=full {
+                    let rows = if col < full { k } else { extra };
+                    for r in 0..rows {
+                        let row = r.wrapping_mul(2654435761) & (k - 1);
+                        s.verif_row_col_update((row << 6) | col);
+                    }
+                }
+                let (c, off, _, flavor, _, _) = s.verif_summary();
+                let valid = s.validate();
+                let bytes = s.serialize();
+                let t = CpcSketch::deserialize_with_seed(&bytes, self.seed).expect("round trip");
+                let same = t.verif_bit_matrix() == s.verif_bit_matrix();
+                vec![c as i128, flavor as i128, off as i128, valid as i128, (!bytes.is_empty()) as i128,
+                     t.num_coupons() as i128, same as i128]
+            }
             10 => {
                 self.sks.insert(a[0], CpcSketch::with_seed(a[1] as u8, self.seed));
                 vec![]
